@@ -194,6 +194,36 @@ fn check_precision(r: &Report, step: u64, delta: u64, f: u64) -> bool {
     true
 }
 
+/// The same under a clock whose reads are slow at first: `a` samples spanning `k1` steps, then `b` samples
+/// spanning `k2` steps, then one step per sample for ever (a, b < 100, so that neither early value can
+/// have been seen a hundred times). The smallest difference seen a hundred times is the step.
+fn check_precision_warmup(r: &Report, step: u64, f: u64, a: u64, k1: u64, b: u64, k2: u64) -> bool {
+    let want = reference(0, step, f);
+    if want == 0 {
+        r.add(&r.excluded, 1);
+        return false;
+    }
+    clock::enable(f, 0, step, 2 * (a + b) + 4096);
+    clock::set_quantum(step);
+    clock::set_read_cost_script(&[(2 * a, k1 * step), (2 * b, k2 * step), (u64::MAX, step)]);
+    let got = std::panic::catch_unwind(|| verif::measure_precision(f));
+    let reads = clock::reads();
+    clock::disable();
+    match got {
+        Ok(g) if g == want => {}
+        other => r.violation(Violation {
+            sig: json!({"check":"precision","warmup":true}),
+            text: format!(
+                "precision of a clock stepping by {step} ticks at {f} Hz whose first {a} samples span {k1} steps and next {b} samples {k2} steps (one step afterwards) measured as {:?} ps, the step is {want} ps",
+                other.map_err(mc_seq::panic_text)
+            ),
+            case: json!({"kind":"precision_warmup","step":step,"f":f.to_string(),"a":a,"k1":k1,"b":b,"k2":k2}),
+        }),
+    }
+    r.add(&r.transitions, reads);
+    true
+}
+
 /// Child mode: answers a sequence of reported-precision queries in one fresh process (the
 /// caches behind `Timer::precision` are process-wide), one output line per query.
 /// Script: comma-separated `os` / `tsc`; the TSC clock steps by `step` ticks at `f` Hz.
@@ -296,6 +326,9 @@ fn main() {
             "precision" => {
                 check_precision(&r, parse_u64(&case["step"]), parse_u64(&case["delta"]), parse_u64(&case["f"]));
             }
+            "precision_warmup" => {
+                check_precision_warmup(&r, parse_u64(&case["step"]), parse_u64(&case["f"]), parse_u64(&case["a"]), parse_u64(&case["k1"]), parse_u64(&case["b"]), parse_u64(&case["k2"]));
+            }
             "os_pair" => check_os_pair(&r, parse_u64(&case["a"]), parse_u64(&case["b"])),
             "reported" => check_reported(&r, parse_u64(&case["step"]), parse_u64(&case["f"]), case["seq"].as_str().unwrap()),
             k => panic!("unknown case kind {k}"),
@@ -380,6 +413,22 @@ fn main() {
                     precision_cases += 1;
                     r.case(1);
                     r.force_sample(json!({"precision_case":{"step":step,"read_spacing":delta,"f":f}}));
+                }
+            }
+        }
+    }
+
+    // (d') slow first reads: every (a, b) of the grid x two pairs of multiples x steps x frequencies
+    for &step in &[1u64, 7, 1000] {
+        for &f in freqs {
+            for (k1, k2) in [(3u64, 2u64), (5, 3), (2, 4)] {
+                for a in [0u64, 1, 30, 60, 90, 99] {
+                    for b in [0u64, 1, 45, 90, 99] {
+                        if check_precision_warmup(&r, step, f, a, k1, b, k2) {
+                            precision_cases += 1;
+                            r.case(1);
+                        }
+                    }
                 }
             }
         }
